@@ -298,6 +298,12 @@ Definition ref_items {A} (o : outcome A) : list item :=
   | Stuck => [("res", [3])]
   end.
 
+(* Block::visit with bsl::FindTransaction::new(id), then tx_found(): result and the found transaction's bytes *)
+Definition run_find (inp id : list byte) : list item :=
+  let '(r, f) := find_transaction inp id in
+  ok_items r (fun p => Ok (common (b_slice (parsed p)) (remaining p))) ++
+  [("fres", snd (res_item r)); ("found", match f with Some b => 1 :: map b2n b | None => [0] end)].
+
 Definition run_ref_case (en : entry) (b : list byte) (param : N) (brk : option N) : list item :=
   let o := policy brk in
   match en with
